@@ -154,14 +154,14 @@ def r5(run, db):
     armed = None
     for site, sw in cl.switches():
         if sw["dty"] == "bool" and armed_name:
-            roots = cl.origins(sw["discr"])
-            if any(any(e.endswith(":" + armed_name) for e in r.get("proj", [])) for r in roots) and all(r["k"] in ("arg", "upvar") for r in roots):
+            roots = flag_roots(cl, sw["discr"])
+            if any(any(e.endswith(":" + armed_name) for e in r.get("proj", []) + r.get("trail", [])) for r in roots) and all(r["k"] in ("arg", "upvar") for r in roots):
                 armed = site
     run.check(armed is not None, "armed-test", "cleanup tests the `armed` field directly", "cleanup does not test `self.armed` directly (e.g. it swaps it first)", cl.where())
     if armed is None:
         return
     armed_init, notify_init = guard_flag_inits(db)
-    te = cl.edge_of(armed, armed_init)          # the edge on which the flag still has its initial (= armed) value
+    te = flag_edge_for_value(cl, armed, armed_init)          # the edge on which the flag still has its initial (= armed) value
     eff = [(o, c) for o, c, ch in inlined_calls(db, cl) if c.is_("ActorCell::set_status", "ActorCell::terminate", "ActorCell::notify_supervisor", "ActorCell::unlink")]
     for o, c in eff:
         run.check(te and cl.edge_dominates(te, o), "effect-on-armed:%s@%s" % (c.name.split("::")[-1], c.fn.value_consts(c.args[1])[0].split("::")[-1] if c.is_("ActorCell::set_status") and c.fn.value_consts(c.args[1]) else ""),
@@ -289,9 +289,9 @@ def r6(run, db):
         if f.id == dr.id:
             # inline form: aggregate dominated by true edge of a switch on notify_on_cancel
             for ssite, sw in dr.switches():
-                roots = dr.origins(sw["discr"])
+                roots = flag_roots(dr, sw["discr"])
                 if any(any(e.endswith(":" + notify_name) for e in r.get("proj", [])) for r in roots):
-                    te = dr.edge_of(ssite, other_bool(notify_init))
+                    te = flag_edge_for_value(dr, ssite, other_bool(notify_init))
                     okgate = okgate or (te and dr.edge_dominates(te, site))
         run.check(okgate, "drop|gated", "the cancellation event exists only when notify_on_cancel is set", "the cancellation event is not gated by notify_on_cancel (a failed start would notify)", dr.where())
     # notify_on_cancel writers: constructor (false) and mark_running (true)
